@@ -10,6 +10,9 @@
 //! - **Observability**: Exposes detailed metrics for monitoring cache performance.
 //! - **Persistence**: Optional `serde` feature for saving and loading cache state.
 
+// `excsn_fibre_verif` is a verification-only cfg passed via RUSTFLAGS.
+#![allow(unexpected_cfgs)]
+
 // Public modules that form the API
 pub mod builder;
 pub mod entry_api;
